@@ -2,5 +2,6 @@ from . import simulation  # noqa
 from . import resource_manager  # noqa
 from . import assets  # noqa
 from . import maintainer  # noqa
+from . import scheduler  # noqa
 from . import frames  # noqa
 from . import claims  # noqa
